@@ -5985,7 +5985,7 @@ class CodegenCtx:
                     range_start = i
                     range_end = i
 
-            if range_end - range_start >= ProgramData.option(ProgramOption.COLLAPSED_RANGE_LENGTH):
+            if range_start < len(on_values_remaining) and range_end - range_start >= ProgramData.option(ProgramOption.COLLAPSED_RANGE_LENGTH):
                 # this is a valid range
                 for j in range(range_start, range_end+1):
                     used.append(on_values_remaining[j])
